@@ -1,6 +1,6 @@
 import Ebv.Driver.Io
-import Ebv.Model.Parallel
-open Ebv Ebv.Io Ebv.Parallel Lean
+import Ebv.Props.C23
+open Ebv Ebv.Io Ebv.Parallel Ebv.C23 Lean
 
 def optS : Option Nat → String
   | some n => toString n
@@ -45,6 +45,6 @@ def step1 (j : Json) : Option String := do
   let v (bad : Sys → Bool) := optS (firstBad bad s0 sched 0)
   let viol := s!"ed={v (fun s => !ethertypesDistinctB s)} si={v (fun s => !singleInstallerB s)} " ++
     s!"iw={v (fun s => !installedB s)} fw={v (fun s => !windowsDisjointB s)}"
-  pure (" ; ".intercalate (s.procs.map showProc) ++ " ;; " ++ showSys s ++ " ;; " ++ viol)
+  pure (" ; ".intercalate (s.procs.map showProc) ++ " ;; " ++ showSys s ++ " ;; " ++ viol ++ s!" quiet={Quiet s0 sched}")
 
 def main : IO Unit := driverMain step1
